@@ -517,11 +517,11 @@ fn c02_head_writer_case(pk: usize) {
 }
 
 //@ props: C02 C01
-//@ tier: quick
+//@ tier: thorough
 //@ unwind: 8
 //@ unwindset: c02_head_writer_case=34 from_static=4 write_all=4 memcmp=20
-//@ timeout: 2400
-//@ mem: 24
+//@ timeout: 3600
+//@ mem: 40
 //@ encodes: Call::<WithoutBody>::write, try_write_prelude, try_write_prelude_part, do_write_send_line, do_write_headers, Writer::try_write rollback, core::fmt (Display of Method / HeaderName, Debug of Version)
 //@ vars: concrete: request GET / HTTP/1.1 with the single effective header host: a; phase concrete per harness (SendLine | SendHeaders(0) | head complete). Symbolic: output buffer size 0..=32 and its prior contents
 //@ bounds: one request line + one header line (27 bytes); every buffer size from 0 to larger than the whole head
@@ -539,6 +539,9 @@ fn c02_head_writer_from_header() {
 }
 
 //@ like: c02_head_writer_from_line
+//@ tier: quick
+//@ timeout: 600
+//@ mem: 16
 #[kani::proof]
 fn c02_head_writer_complete() {
     c02_head_writer_case(2);
